@@ -1915,7 +1915,7 @@ class CParser:
             self._expect("RBRACE")
             # A compound literal is a postfix-expression: it can be followed
             # by the usual suffixes, e.g. (struct S){1}.x
-            expr = c_ast.CompoundLiteral(typ, init)
+            expr = c_ast.CompoundLiteral(typ, init, typ.coord)
         else:
             expr = self._parse_primary_expression()
         while True:
